@@ -303,6 +303,55 @@ Section C17.
     = if is_empty num (nth p tr (empty_trace num)) || reset then names_of cfg (length (vals_of s)) a
       else tr_names (nth p tr (empty_trace num)).
   Proof. exact (fun H1 H2 H3 => trace_names_after_run num sub absf ltb isfin zero cfg a ev before after H1 H2 H3 reset d o t s tr p s' tr' out). Qed.
+  (* THE SECOND SENTENCE FOR solve(): after the WHOLE multi-period solve(trace=..., reset=False), a period with an empty
+     Trace that is visited once and SOLVED holds the labels start, before, 0, 1..k, end (k = its iteration count >= 1),
+     snapshot j = the traced variables after its pass j, the last snapshot = the solution stored when it finished.
+     ((s1, tr1) = the instance when the period's turn comes, s2 = the state right after its solve_t.) *)
+  Theorem C17_solve_trace_shape_solved cfg a (L : Type) d o (l1 l2 : list (Z * L)) t lab s (tr : traces num) acc p s1 tr1 acc1 s2 tr2 :
+    shape_pres num ev -> shape_pres num before -> shape_pres num after ->
+    truthy a = true ->
+    (forall t', In t' (map fst (l1 ++ (t, lab) :: l2)) -> ready num cfg a false t' (vals_of s) tr) ->
+    py_pos (length tr) t = Some p -> length tr = length (status s) ->
+    (forall t', In t' (map fst l1 ++ map fst l2) -> py_pos (length tr) t' <> Some p) ->
+    is_empty num (nth p tr (empty_trace num)) = true ->
+    traced_run_periods num sub absf ltb isfin zero cfg a false ev before after L d o l1 s tr acc = ((s1, tr1), Ret acc1) ->
+    traced_solve_t cfg a false ev before after d o t s1 tr1 = ((s2, tr2), Ret true) ->
+    let names := names_of cfg (length (vals_of s1)) a in
+    let v0 := seeded num zero d o s1 p in
+    let v1 := fst (before t (errors o) (catch_first o) 0%nat v0) in
+    exists k, (1 <= k)%nat /\
+      status s2 = upd p Solved (status s1) /\ iters s2 = upd p (Z.of_nat k) (iters s1) /\
+      nth p (snd (fst (traced_run_periods num sub absf ltb isfin zero cfg a false ev before after L d o (l1 ++ (t, lab) :: l2) s tr acc))) (empty_trace num)
+      = mkTrace names
+          (LStart :: LBefore :: map LIter (seq 0 (S k)) ++ [LEnd])
+          (snap num zero (vals_of s1) t names :: snap num zero v0 t names
+           :: map (fun j => snap num zero (st_after num ev o t v1 j) t names) (seq 0 (S k)) ++ [snap num zero (vals_of s2) t names]).
+  Proof. exact (fun H1 H2 H3 => solve_trace_shape_solved num sub absf ltb isfin zero cfg a ev before after H1 H2 H3 L d o l1 l2 t lab s tr acc p s1 tr1 acc1 s2 tr2). Qed.
+
+  (* ... and an UNSOLVED one (flag False, or NonConvergenceError which ends the run): no 'end'; the trace stops after its
+     last pass k = iterations, whose snapshot is what is stored *)
+  Theorem C17_solve_trace_shape_unsolved cfg a (L : Type) d o (l1 l2 : list (Z * L)) t lab s (tr : traces num) acc p s1 tr1 acc1 s2 tr2 out :
+    shape_pres num ev -> shape_pres num before -> shape_pres num after ->
+    truthy a = true ->
+    (forall t', In t' (map fst (l1 ++ (t, lab) :: l2)) -> ready num cfg a false t' (vals_of s) tr) ->
+    py_pos (length tr) t = Some p -> length tr = length (status s) ->
+    (forall t', In t' (map fst l1 ++ map fst l2) -> py_pos (length tr) t' <> Some p) ->
+    is_empty num (nth p tr (empty_trace num)) = true ->
+    traced_run_periods num sub absf ltb isfin zero cfg a false ev before after L d o l1 s tr acc = ((s1, tr1), Ret acc1) ->
+    traced_solve_t cfg a false ev before after d o t s1 tr1 = ((s2, tr2), out) ->
+    out = Ret false \/ out = Raise NonConvergenceError ->
+    let names := names_of cfg (length (vals_of s1)) a in
+    let v0 := seeded num zero d o s1 p in
+    let v1 := fst (before t (errors o) (catch_first o) 0%nat v0) in
+    exists k x, x <> Solved /\
+      status s2 = upd p x (status s1) /\ iters s2 = upd p (Z.of_nat k) (iters s1) /\
+      vals_of s2 = st_after num ev o t v1 k /\
+      nth p (snd (fst (traced_run_periods num sub absf ltb isfin zero cfg a false ev before after L d o (l1 ++ (t, lab) :: l2) s tr acc))) (empty_trace num)
+      = mkTrace names
+          (LStart :: LBefore :: map LIter (seq 0 (S k)))
+          (snap num zero (vals_of s1) t names :: snap num zero v0 t names
+           :: map (fun j => snap num zero (st_after num ev o t v1 j) t names) (seq 0 (S k))).
+  Proof. exact (fun H1 H2 H3 => solve_trace_shape_unsolved num sub absf ltb isfin zero cfg a ev before after H1 H2 H3 L d o l1 l2 t lab s tr acc p s1 tr1 acc1 s2 tr2 out). Qed.
 End C17.
 
 (* FINDING #16 (still present).  Without the width guard non-interference is false: valid names, t in the span,
@@ -359,6 +408,8 @@ Print Assumptions C17_trace_of_period_within_solve.
 Print Assumptions C17_traced_solve_no_targets.
 Print Assumptions C17_trace_accumulates.
 Print Assumptions C17_trace_names_after_run.
+Print Assumptions C17_solve_trace_shape_solved.
+Print Assumptions C17_solve_trace_shape_unsolved.
 Print Assumptions C17_trace_stale_names_refuted.
 Print Assumptions C17_traced_solve_t_start_fails.
 Print Assumptions C17_trace_shape_solved.
